@@ -176,8 +176,9 @@ CLAIMED = {
              "touched by another (data-race freedom, hence independence of thread count and schedule). The real lazycompile wrapper is split "
              "into its atomic reads/writes of the shared closure cell (locks, try/finally supported) and N threads are interleaved by a "
              "symbolic schedule (z3 integer time stamps): over all schedules of 2..5 threads every call goes to a compiled function and "
-             "every activation reaches its call. Counterexamples are replayed on the compiled code (joint vs alone, 1 vs 16 threads, threads "
-             "racing through the real wrapper with a slow compile step).",
+             "every activation reaches its call. The explicit dask path of the autocorr accessor is executed over a dask-backed contract "
+             "(block function, whole time axis, dropped axis, declared dtype). Counterexamples are replayed on the compiled code (joint vs alone, 1 vs 16 threads, threads "
+             "racing through the real wrapper with a slow compile step, lazy vs eager under chunkings x schedulers).",
         note="PARTIAL: dask graph construction/execution, schedulers, chunking, apply_ufunc, Numba's threading layer / compile lock / parfor "
              "lowering are NOT Python source of the repository and are outside (a seeded dask layer-name change is missed); cubes 2x2 px x 4 "
              "steps (thorough 3x1, 1x3, 5 steps). Trusted: pysym incl. its prange model, the schedule encoder, z3.",
